@@ -178,7 +178,6 @@ func (p *poller) acceptorLoop() {
 		defer runtime.UnlockOSThread()
 	}
 
-	p.shutdown = false
 	for !p.shutdown {
 		conn, err := p.listener.Accept()
 		if err == nil {
@@ -239,7 +238,6 @@ func (p *poller) readWriteLoop() {
 	}
 
 	g := p.g
-	p.shutdown = false
 	isOneshot := g.isOneshot
 	asyncReadEnabled := g.AsyncReadInPoller && (g.EpollMod == EPOLLET)
 	for !p.shutdown {
